@@ -24,7 +24,7 @@ const ASSUME: &[&str] = &[
 
 pub const META_C01: Meta = Meta {
     level: "model_checking",
-    rule: "BFS over action histories {Dial(p,cond), DialAddr, BehDial(p), Incoming, Ok(attempt,peer), Fail(attempt), Close(c), Disconnect(p), BehClose(p,c|all), MuxFail(c), Drain} on a fresh real Swarm per history (scripted transport/muxer, harness executor, default task schedule), deduplicated on reference facts + observable counters; plus E1 exploration of task-schedule deviations (bound 1 quick / 2 thorough) over all histories of length <=3 quick / <=4 thorough from a reduced alphabet. Non-trivial = states in which at least one connection reached a terminal event.",
+    rule: "BFS over action histories {Dial(p,cond), DialAddr, BehDial(p), Incoming, Ok(attempt,peer), Fail(attempt), Close(c), Disconnect(p), BehClose(p,c|all), MuxFail(c), Drain} on a fresh real Swarm per history (scripted transport/muxer, harness executor, default task schedule), deduplicated on reference facts + observable counters; plus E1 exploration of task-schedule deviations (bound 1 quick / 2 thorough) over all histories of length <=3 quick / <=4 thorough from a reduced alphabet. Non-trivial = states in which at least one connection reached a terminal event. The harness-executor configurations are repeated with the probe inside an enabled Toggle<_> and inside each arm of Either<_, _> (depth 3/4).",
     explanation: "Oracle: per ConnectionId automaton (at most one of Established/OutgoingError/IncomingError or the synchronous dial Err; ConnectionClosed at most once and only after Established; exactly one terminal + one Closed per established id after the drain suffix); the FromSwarm lifecycle sequence seen by the behaviour equals the SwarmEvent lifecycle sequence (ids with only a synchronous rejection excluded).",
     assumptions: ASSUME,
 };
@@ -42,7 +42,7 @@ pub const META_C05: Meta = Meta {
 };
 pub const META_C06: Meta = Meta {
     level: "model_checking",
-    rule: "same exploration as C01 under every deny mask in {pending-in, pending-out, established-in, established-out} x {Always, Odd, Even}; Non-trivial = states in which some connection was denied.",
+    rule: "same exploration as C01 under every deny mask in {pending-in, pending-out, established-in, established-out} x {Always, Odd, Even}; Non-trivial = states in which some connection was denied. All masks are repeated with the probe inside an enabled Toggle<_> and inside each arm of Either<_, _> (depth 3/4).",
     explanation: "Oracle: a denied id never appears established, never has a handler polled or notified, is never counted (C02 reference), and gets exactly one DialFailure/ListenFailure and exactly one SwarmEvent error (or the synchronous Err).",
     assumptions: ASSUME,
 };
@@ -164,6 +164,42 @@ impl HasProbe for libp2p_swarm::behaviour::toggle::Toggle<Probe> {
 impl Subject for libp2p_swarm::behaviour::toggle::Toggle<Probe> {
     fn make(log: Log, cfg: &LifeCfg) -> Self {
         Some(Probe::new(0, log, cfg.deny)).into()
+    }
+}
+
+/// the probe as one arm of `either::Either` (variant 78: Left, 79: Right)
+pub type EitherProbe = either::Either<Probe, Probe>;
+impl HasProbe for EitherProbe {
+    fn probe(&mut self) -> &mut Probe {
+        match self {
+            either::Either::Left(p) => p,
+            either::Either::Right(p) => p,
+        }
+    }
+}
+impl Subject for EitherProbe {
+    fn make(log: Log, cfg: &LifeCfg) -> Self {
+        let p = Probe::new(0, log, cfg.deny);
+        if cfg.variant == 79 { either::Either::Right(p) } else { either::Either::Left(p) }
+    }
+}
+pub type ToggleProbe = libp2p_swarm::behaviour::toggle::Toggle<Probe>;
+
+/// The same configurations with the probe wrapped in the Swarm crate's own behaviour
+/// combinators: an enabled `Toggle<_>` (variant 77) and both arms of `Either<_, _>` (78, 79).
+/// The wrappers forward every callback, so every oracle must hold unchanged.
+fn wrapped(ctx: &Ctx, which: Which, cfgs: &[LifeCfg], depth: usize, sched: (usize, u32)) -> Outcome {
+    let with = |v: u8| -> Vec<LifeCfg> { cfgs.iter().cloned().map(|mut c| { c.variant = v; c }).collect() };
+    let mut o = run_generic::<ToggleProbe>(ctx, which, with(77), depth, sched);
+    o.merge(run_generic::<EitherProbe>(ctx, which, with(78), depth, sched));
+    o.merge(run_generic::<EitherProbe>(ctx, which, with(79), depth, sched));
+    o
+}
+fn replay_wrapped(ctx: &Ctx, which: Which, case: &serde_json::Value) -> Outcome {
+    match case["cfg"]["variant"].as_u64() {
+        Some(77) => run_generic::<ToggleProbe>(ctx, which, vec![], 0, (0, 0)),
+        Some(78) | Some(79) => run_generic::<EitherProbe>(ctx, which, vec![], 0, (0, 0)),
+        _ => run_generic::<Probe>(ctx, which, vec![], 0, (0, 0)),
     }
 }
 
@@ -1558,7 +1594,14 @@ fn with_denials(which: Which) -> Vec<LifeCfg> {
 
 pub fn run_c01(ctx: &Ctx) -> Outcome {
     let cfgs = with_denials(Which::C01);
-    run_generic::<Probe>(ctx, Which::C01, cfgs, ctx.tier.pick(4, 5), (ctx.tier.pick(3, 4), ctx.tier.pick(1, 2)))
+    if let Some(case) = &ctx.replay {
+        return replay_wrapped(ctx, Which::C01, case);
+    }
+    let mut o = run_generic::<Probe>(ctx, Which::C01, cfgs.clone(), ctx.tier.pick(4, 5), (ctx.tier.pick(3, 4), ctx.tier.pick(1, 2)));
+    // both event streams must stay in step as well when the behaviour sits inside a combinator
+    let harness_exec: Vec<LifeCfg> = cfgs.into_iter().filter(|c| !c.local_exec).collect();
+    o.merge(wrapped(ctx, Which::C01, &harness_exec, ctx.tier.pick(3, 4), (ctx.tier.pick(2, 3), 1)));
+    o
 }
 pub fn run_c02(ctx: &Ctx) -> Outcome {
     let cfgs = with_denials(Which::C02);
@@ -1584,14 +1627,11 @@ pub fn run_c06(ctx: &Ctx) -> Outcome {
     }
     let _ = pname;
     if let Some(case) = &ctx.replay {
-        let toggled = case["cfg"]["variant"] == 77;
-        return if toggled { run_generic::<libp2p_swarm::behaviour::toggle::Toggle<Probe>>(ctx, Which::C06, vec![], 0, (0, 0)) } else { run_generic::<Probe>(ctx, Which::C06, vec![], 0, (0, 0)) };
+        return replay_wrapped(ctx, Which::C06, case);
     }
     let mut o = run_generic::<Probe>(ctx, Which::C06, cfgs.clone(), ctx.tier.pick(4, 5), (ctx.tier.pick(3, 4), ctx.tier.pick(1, 2)));
-    // the same denials issued from inside an enabled Toggle<_> wrapper (variant 77 marks the
-    // wrapper in replay files)
-    let toggled: Vec<LifeCfg> = cfgs.into_iter().map(|mut c| { c.variant = 77; c }).collect();
-    o.merge(run_generic::<libp2p_swarm::behaviour::toggle::Toggle<Probe>>(ctx, Which::C06, toggled, ctx.tier.pick(3, 4), (ctx.tier.pick(2, 3), 1)));
+    // the same denials issued from inside the Swarm crate's behaviour combinators
+    o.merge(wrapped(ctx, Which::C06, &cfgs, ctx.tier.pick(3, 4), (ctx.tier.pick(2, 3), 1)));
     o
 }
 
